@@ -639,18 +639,27 @@ def trace_qcow2_chain_std(tid, rng, nops, align=None):
             t.append(k)
             h.append(hh)
             l2[c] = {"t": k, "h": hh, "sub": []}
-        img = {"ext": False, "datafile": False, "l2n": l2n, "s": 1, "l1": l1, "l2": l2, "back": back_cells, "size": nc}
-        vf, _, info = enc_qcow2.build(img, cluster_bits=cb, K=1, file_id=i)
-        vfs.append(vf)
-        bases.append(info["data_base"])
-        layers.append({"fmt": "qcow2", "img": {"ext": False, "datafile": False, "nc": nc, "s": 1, "t": t, "h": h, "al_lo": [0] * nc, "al_hi": [0] * nc,
+        # an overlay may keep its guest clusters in an external data file (feature bit, with or without the name extension):
+        # host cluster 0 of that file is a valid place for data
+        dfile = rng.random() < 0.3
+        if dfile:
+            zero_pos = [c for c in range(nc) if t[c] in ("N", "ZA")]
+            if zero_pos:
+                c0 = rng.choice(zero_pos)
+                h[c0] = 0
+                l2[c0]["h"] = 0
+        img = {"ext": False, "datafile": dfile, "l2n": l2n, "s": 1, "l1": l1, "l2": l2, "back": back_cells, "size": nc}
+        vf, dvf, info = enc_qcow2.build(img, cluster_bits=cb, K=1, file_id=i, data_fid=i, datafile_ext=rng.random() < 0.4)
+        vfs.append((vf, dvf))
+        bases.append(0 if dfile else info["data_base"])
+        layers.append({"fmt": "qcow2", "img": {"ext": False, "datafile": dfile, "nc": nc, "s": 1, "t": t, "h": h, "al_lo": [0] * nc, "al_hi": [0] * nc,
                                                "ze_lo": [0] * nc, "ze_hi": [0] * nc, "back": back_cells}})
 
     def opener():
         obj = None
-        for vf in reversed(vfs):
+        for vf, dvf in reversed(vfs):
             vf.seek(0)
-            obj = QCow2(vf, backing_file=obj)
+            obj = QCow2(vf, data_file=dvf, backing_file=obj if obj is not None else None)
         return obj
 
     size_b = ncs[0] * cs
@@ -830,17 +839,23 @@ def res_vhdx(fs, work, via="path"):
 
     d = tempfile.mkdtemp(prefix="res-vhdx-", dir=work)
     d2 = tempfile.mkdtemp(prefix="res-vhdx-abs-", dir=work)
+    # the child lives in d/child; the relative entry names a sub-directory of it or a sibling directory ("..\\")
+    sib = via in ("str", "named-handle", "anon-buffered")
+    rel_dir = os.path.join(d, "sibling dir") if sib else os.path.join(d, "child", "rel dir")
     if fs[0]:
-        _mk_parent_vhdx(os.path.join(d, "rel dir", "parent.vhdx"), 1)
+        _mk_parent_vhdx(os.path.join(rel_dir, "parent.vhdx"), 1)
+        if sib:   # a stale copy below the child's own directory must not be picked up instead
+            _mk_parent_vhdx(os.path.join(d, "child", "sibling dir", "parent.vhdx"), 7)
     if fs[1]:
         _mk_parent_vhdx(os.path.join(d2, "parent.vhdx"), 2)
-    loc = {"parent_linkage": "{11111111-2222-3333-4444-555555555555}", "relative_path": ".\\rel dir\\parent.vhdx",
+    loc = {"parent_linkage": "{11111111-2222-3333-4444-555555555555}", "relative_path": ("..\\sibling dir\\parent.vhdx" if sib else ".\\rel dir\\parent.vhdx"),
            "absolute_win32_path": (d2.lstrip("/") + "/parent.vhdx").replace("/", "\\")}
     vf, _ = enc_vhdx.build([(enc_vhdx.ST_NOT_PRESENT, None)], block_size=1 << 20, sector_size=512, disk_size=1 << 20, has_parent=True, locator=loc, file_id=9)
-    vf.materialise(os.path.join(d, "child.avhdx"))
+    os.makedirs(os.path.join(d, "child"), exist_ok=True)
+    vf.materialise(os.path.join(d, "child", "child.avhdx"))
     keep = []
     try:
-        v = VHDX(_hand_over(os.path.join(d, "child.avhdx"), via, keep))
+        v = VHDX(_hand_over(os.path.join(d, "child", "child.avhdx"), via, keep))
         return _which_parent(v.read(512))
     finally:
         for fh in keep:
